@@ -8,7 +8,7 @@ package main
 //	      acc=<hex bitmask of accepting accessors> any=<Any() as go value> back=<proto.Any(Any())>
 //	      rt=<UnmarshalValue(m, arch, bt, isBool(value), isSlice(value))>
 //	unm b:<hex> a:<arch> bt:<hex> pb:<0|1> arr:<0|1>        → ok:<value> | err | panic
-//	vany <gotag>[@<k>][*][*]:<payload>                      → <value>     (proto.Any; @k = k-th named type of that kind, * = pointer)
+//	vany <gotag>[@<k>][*][*]:<payload>                      → <value> any=<go value>   (proto.Any, then Value.Any(); @k = k-th named type of that kind, * = pointer)
 //	utf8 b:<hex> → r=<rune hex> n=<width> ok=<utf8.Valid> app=<AppendRune(r) hex> s=<utf8String hex>
 
 import (
@@ -27,6 +27,20 @@ import (
 )
 
 func init() {
+	// every named type of profile/typedef (regenerated list, typedef_registry_gen.go) behind the hand-picked ones: the
+	// first entries of each kind keep their index (@k of existing corpus lines)
+	for kind, ts := range typedefNamedRegistry {
+		have := map[reflect.Type]bool{}
+		for _, t := range namedTypes[kind] {
+			have[t] = true
+		}
+		sorted := append([]reflect.Type(nil), ts...)
+		for _, t := range sorted {
+			if !have[t] {
+				namedTypes[kind] = append(namedTypes[kind], t)
+			}
+		}
+	}
 	families["value"] = genValue
 	families["utf8"] = genUtf8
 	executors["value"] = execValue
@@ -442,7 +456,9 @@ func execVany(args []string) string {
 		rv.Elem().Set(reflect.ValueOf(g))
 		g = rv.Interface()
 	}
-	return printValue(proto.Any(g))
+	// wrap, and unwrap again (the property: type and content are preserved)
+	v := proto.Any(g)
+	return printValue(v) + " any=" + printGo(v.Any())
 }
 
 func execUtf8(args []string) string {
@@ -922,6 +938,12 @@ func genValue(emit func(string), tier string, rng *Rng) {
 			vany(tag + "s*:" + ps)
 			vany(tag + "**:" + p)
 			for k := 0; k < nNamed; k++ {
+				if k >= 6 && i >= 3 { // the ~160 further types of profile/typedef: three values each
+					break
+				}
+				if k >= 6 {
+					count("any-typedef-named")
+				}
 				vany(fmt.Sprintf("%s@%d:%s", tag, k, p))
 				vany(fmt.Sprintf("%ss@%d:%s", tag, k, ps))
 				vany(fmt.Sprintf("%s@%d*:%s", tag, k, p))
